@@ -360,7 +360,20 @@ def run_check(prop: str, tier: str, seed: int, module: Any) -> int:
     ctx = Ctx(prop=prop, tier=tier, seed=seed, rng=random.Random(seed), driver_ok=okd)
     budget = float(os.environ.get('VERIF_BUDGET', '90' if tier == 'quick' else '900'))
     ctx.deadline = time.time() + budget
-    module.run(ctx)
+    try:
+        module.run(ctx)
+    except Infra:
+        raise
+    except Exception as e:  # noqa: BLE001
+        # the harness itself stopped (an assumption it makes about the code no longer holds, a name it imports is
+        # gone): the correspondence was not established — reported like a broken obligation, with what was found so far
+        import traceback
+
+        tb = traceback.format_exc()
+        where = tb.strip().splitlines()[-3].strip() if len(tb.strip().splitlines()) >= 3 else ''
+        broken.append(f'the correspondence harness stopped: {type(e).__name__}: {str(e)[:200]} ({where[:160]})')
+        ctx.notes.append('harness traceback: ' + tb[-1800:])
+        log(tb)
 
     # 6. decide
     findings = load_findings()
